@@ -18,7 +18,7 @@ import numpy as np
 
 from .. import core
 from .. import lattice as L
-from ..faultfs import LISTING, VerifFS
+from ..faultfs import LISTING, CopyRemoveFS, VerifFS
 
 LEVEL = "fault_enumeration"
 R = 3
@@ -40,6 +40,9 @@ CONFIGS = {
     "external-empty-overwrite": ("external", "dups", 4, True),
     "default-empty-overwrite": ("default", "dups", 4, True),
     "external-full-overwrite": ("external", "distinct", 3, True),
+    # the same on a filesystem whose move is copy + remove
+    "default-empty-copymove": ("default", "dups", 4, False, "copymove"),
+    "external-empty-copymove": ("external", "dups", 4, False, "copymove"),
 }
 
 
@@ -114,7 +117,8 @@ def run_pack(work, cfgname, faults, keep=False, healthy_repeat=False):
     import dask
     import dask.dataframe as dd
     from fsspec.implementations.local import LocalFileSystem
-    mode, variant, npk, overwrite = CONFIGS[cfgname]
+    mode, variant, npk, overwrite = CONFIGS[cfgname][:4]
+    fs_cls = CopyRemoveFS if len(CONFIGS[cfgname]) > 4 else VerifFS
     if not healthy_repeat:
         shutil.rmtree(work, ignore_errors=True)
         os.makedirs(work)
@@ -131,7 +135,7 @@ def run_pack(work, cfgname, faults, keep=False, healthy_repeat=False):
 
     def det_uuid4():
         counter[0] += 1
-        return uuid.UUID(int=hi + counter[0])
+        return uuid.UUID(int=((counter[0] & 0xffffffff) << 96) + hi + counter[0])    # every hex prefix differs from call to call
     old_uuid4 = uuid.uuid4
     uuid.uuid4 = det_uuid4
     try:
@@ -140,7 +144,7 @@ def run_pack(work, cfgname, faults, keep=False, healthy_repeat=False):
                 old = dd.from_pandas(make_frame(None, old=True), npartitions=2)
                 old.pack_partitions_to_parquet(path, filesystem=LocalFileSystem(), npartitions=5, p=6, _retry_args=retry)
             ddf = dd.from_pandas(make_frame(variant), npartitions=2)
-            fs = LocalFileSystem() if healthy_repeat else VerifFS(faults=faults)
+            fs = LocalFileSystem() if healthy_repeat else fs_cls(faults=faults)
             if overwrite and not healthy_repeat:
                 # the previous dataset was written a moment ago: its entries are the most recent changes a stale listing may miss
                 for e in sorted(os.listdir(path)):
@@ -244,9 +248,9 @@ def single_fault_variants(method, k, quick):
 def run(ctx):
     scratch = ctx.scratch()
     T = ctx.thorough
-    cfgs = list(CONFIGS) if T else ["default-full", "default-empty", "external-full", "external-empty-overwrite"]
+    cfgs = list(CONFIGS) if T else ["default-full", "default-empty", "external-full", "external-empty-overwrite", "default-empty-copymove"]
     if not T and ctx.seed % 2:
-        cfgs = ["default-full-overwrite", "default-empty", "external-full", "external-empty"]
+        cfgs = ["default-full-overwrite", "default-empty", "external-full", "external-empty", "external-empty-copymove"]
     # warm kernels
     make_frame("distinct")["pts"].hilbert_distance(p=6)
     work0 = os.path.join(scratch, "ref")
